@@ -239,3 +239,201 @@ class ZmapAscii:
 
     def raises(c, exc, fname, _n):
         return None
+
+
+# ------------------------------------------------------------------ CSEP CSV (single catalog)
+from pyvc.models_io import FLOAT_OK, FLOAT_VAL, INT_VAL, INT_OK, IS_EMPTY, IS_LON_EXACT, csv_row      # noqa: E402
+from pyvc.core import PyRaise, builtin_exc      # noqa: E402
+
+CSEPCSV = 'csep.utils.readers.csep_ascii'
+STRP = 'csep.utils.time_utils.strptime_to_utc_epoch'
+CSV_TIME_MS = z3.Function('csv_time_ms', z3.IntSort(), z3.IntSort())
+CSV_HAS_FRAC = z3.Function('csv_time_has_fraction', z3.IntSort(), z3.BoolSort())
+
+
+@contract
+class StrptimeCsvTime:
+    qualname = STRP
+    case = 'time field of a csv row read by csep_ascii (assumed: parses with the fractional format iff it has a fraction)'
+    properties = ('C19',)
+    assumed = True
+    priority = 5
+
+    def params(c):
+        return None
+
+    def accepts(c, time_string, format=None):
+        return isinstance(time_string, Opaque) and time_string.name == 'csvfield' and c.ctx.ghost.get('csep_csv') is not None
+
+    def requires(c, time_string, format=None):
+        return []
+
+    def ensures(c, r, time_string, format=None):
+        return []
+
+    def result(c, time_string, format=None):
+        row = time_string.row
+        want_frac = isinstance(format, str) and '%f' in format
+        ok = CSV_HAS_FRAC(row) if want_frac else z3.Not(CSV_HAS_FRAC(row))
+        if c.ctx.branch(z3.Not(ok)):
+            raise PyRaise(builtin_exc('ValueError'), 'time data does not match format')
+        return CSV_TIME_MS(row)
+
+
+def _event_id_token(t):
+    """the event id of the record in row t: its id field if not empty, else the row number"""
+    return Opaque('csv_event_id', row=to_z3(t))
+
+
+class CsepCsvLoop(LoopInv):
+    """for i, line in enumerate(catalog_reader): after rows [0, i) the list holds one event per row from h on (h = 1 iff row 0
+    is the header), event j comes from row j + h; is_first_event <-> no event yet; catalog_id is that of the last row read"""
+
+    def trips(self, I, it):
+        src = it.inner if isinstance(it, Opaque) and hasattr(it, 'inner') else it
+        return to_z3(src.n)
+
+    def item(self, I, it, i):
+        return (i, csv_row(i))
+
+    def havoc(self, I, fr, i, it):
+        g = I.ctx.ghost['csep_csv']
+        h = g['h']
+        i = to_z3(i)
+        for nm in ('line', 'lon', 'lat', 'magnitude', 'origin_time', 'depth', 'event_id', 'i'):
+            fr.locals.pop(nm, None)
+        if I.ctx.branch(i <= h):
+            fr.locals['events'] = []
+            fr.locals['is_first_event'] = True
+            fr.locals['catalog_id'] = None
+            self.started = False
+            return
+        self.started = True
+        fr.locals['is_first_event'] = False
+        fr.locals['catalog_id'] = z3.If(INT_OK(i - 1, 5), INT_VAL(i - 1, 5), z3.IntVal(-1))
+        fr.locals['events'] = SymList(i - h, lambda j: CsepCsvLoop.event_of_row(to_z3(j) + h), 'events')
+
+    @staticmethod
+    def event_of_row(t):
+        return (_event_id_token(t), CSV_TIME_MS(t), FLOAT_VAL(t, z3.IntVal(1)), FLOAT_VAL(t, z3.IntVal(0)), FLOAT_VAL(t, z3.IntVal(4)), FLOAT_VAL(t, z3.IntVal(2)))
+
+    @staticmethod
+    def clause(I, ev, t):
+        """the actual tuple `ev` is the event of row t"""
+        if not (isinstance(ev, tuple) and len(ev) == 6):
+            return z3.BoolVal(False)
+        eid = ev[0]
+        if isinstance(eid, Opaque) and eid.name == 'csv_event_id':
+            id_ok = eid.row == t
+        elif isinstance(eid, Opaque) and eid.name == 'csvfield':
+            id_ok = z3.And(eid.row == t, eid.col == 6, z3.Not(IS_EMPTY(t, 6)))
+        elif z3.is_expr(to_z3(eid)) and to_z3(eid).sort() == z3.IntSort():
+            id_ok = z3.And(IS_EMPTY(t, 6), to_z3(eid) == t)
+        else:
+            return z3.BoolVal(False)
+        num = lambda v: z3.is_expr(v) or isinstance(v, (int, float))
+        if not all(num(v) for v in ev[1:]):
+            return z3.BoolVal(False)
+        return z3.And(id_ok, to_z3(ev[1]) == CSV_TIME_MS(t), to_real(ev[2]) == FLOAT_VAL(t, 1), to_real(ev[3]) == FLOAT_VAL(t, 0),
+                      to_real(ev[4]) == FLOAT_VAL(t, 4), to_real(ev[5]) == FLOAT_VAL(t, 2))
+
+    def inv(self, I, fr, i, it):
+        g = I.ctx.ghost['csep_csv']
+        h = g['h']
+        i = to_z3(i)
+        ev, first, cid = fr.locals['events'], fr.locals['is_first_event'], fr.locals['catalog_id']
+        n_ev = to_z3(ev.n) if isinstance(ev, SymList) else z3.IntVal(len(ev))
+        if self.mode == 'assume':
+            return
+        started = i > h
+        yield 'no event before the first record', z3.Implies(z3.Not(started), n_ev == 0)
+        yield 'one event per record read', z3.Implies(started, n_ev == i - h)
+        yield 'is_first_event <-> no record read yet', z3.BoolVal(isinstance(first, bool)) if not isinstance(first, bool) else (z3.Not(started) if first else started)
+        if cid is None:
+            yield 'catalog_id is None only before the first record', z3.Not(started)
+        else:
+            yield 'catalog_id is the id of the last record (or -1 if it is not a number)', \
+                z3.And(started, to_z3(cid) == z3.If(INT_OK(i - 1, 5), INT_VAL(i - 1, 5), z3.IntVal(-1)))
+        j = I.ctx.fresh_int('j!sk')
+        if isinstance(ev, SymList) and getattr(ev, 'last_append', None) is not None:
+            n0, v, f0 = ev.last_append
+            yield 'the event appended last is the event of the row just read', z3.Implies(started, self.clause(I, v, to_z3(n0) + h))
+            yield 'earlier event j is the event of row j + h', z3.Implies(z3.And(started, 0 <= j, j < to_z3(n0)), self.clause(I, f0(j), j + h))
+        elif isinstance(ev, SymList):
+            yield 'event j is the event of row j + h', z3.Implies(z3.And(started, 0 <= j, j < n_ev), self.clause(I, ev.f(j), j + h))
+        else:
+            for k, e in enumerate(ev):
+                yield 'event %d is the event of row %d + h' % (k, k), self.clause(I, e, z3.IntVal(k) + h)
+
+
+def _csv_params(c, ret_id):
+    n = c.int('n_rows')
+    c.ctx.assume(n >= 0)
+    h = c.int('n_header')
+    c.ctx.ghost['csep_csv'] = dict(n=n, h=h)
+    c.ctx.ghost['csv_int_may_fail'] = True
+    c.ctx.ghost.setdefault('files', {})['catalog.csv'] = ('symrows', n)
+    return dict(fname='catalog.csv', return_catalog_id=ret_id, _n=n, _h=h)
+
+
+def _csv_requires(c, fname, return_catalog_id, _n, _h):
+    t = z3.Int('t!rq')
+    return [z3.Or(_h == 0, _h == 1), (_h == 1) == z3.And(_n >= 1, IS_LON_EXACT(0)),
+            z3.ForAll([t], z3.Implies(z3.And(1 <= t, t < _n), z3.Not(IS_LON_EXACT(t))), patterns=[IS_LON_EXACT(t)]),
+            z3.ForAll([t], z3.Implies(z3.And(_h <= t, t < _n), z3.And(*[FLOAT_OK(t, k) for k in (0, 1, 2, 4)])), patterns=[FLOAT_OK(t, 0)])]
+
+
+def _directed_csepcsv():
+    loc = dict(lat='42.9043', lon='13.0005', depth='11.1', mag='5.95')
+    recs = [dict(loc, t=[2017, 4, 22, 4, 42, '58.25']), dict(loc, t=[2019, 12, 31, 23, 59, '59.00']), dict(loc, lat='-42.5', lon='-179.95', t=[1969, 7, 20, 20, 17, '40.00'])]
+    return [('catalog_reader', dict(fmt='csep-csv', events=recs)), ('catalog_reader', dict(fmt='csep-csv', events=recs[:1]))]
+
+
+@contract
+class CsepAscii:
+    directed = staticmethod(_directed_csepcsv)
+    qualname = CSEPCSV
+    case = 'file of any number of rows, at most one header row (the first); numeric columns parse; events only'
+    properties = ('C19',)
+    loops = {0: CsepCsvLoop()}
+
+    def params(c):
+        return _csv_params(c, False)
+
+    requires = _csv_requires
+
+    def ensures(c, r, fname, return_catalog_id, _n, _h):
+        if isinstance(r, list):
+            yield 'no events only for a file without records', z3.BoolVal(not r) if r else _n <= _h
+            return
+        yield 'returns the list of events', z3.BoolVal(isinstance(r, SymList))
+        if not isinstance(r, SymList):
+            return
+        yield 'one event per record', to_z3(r.n) == _n - _h
+        j = c.ctx.fresh_int('j!sk')
+        yield 'event j == (id field or row number, origin time, latitude, longitude, depth, magnitude) of record j, in file order', \
+            z3.Implies(z3.And(0 <= j, j < _n - _h), CsepCsvLoop.clause(c.I, r.f(j), j + _h))
+
+    def raises(c, exc, fname, return_catalog_id, _n, _h):
+        return None
+
+
+@contract
+class CsepAsciiWithId(CsepAscii):
+    case = 'file of any number of rows, at most one header row; events and catalog id'
+
+    def params(c):
+        return _csv_params(c, True)
+
+    def ensures(c, r, fname, return_catalog_id, _n, _h):
+        ok = isinstance(r, tuple) and len(r) == 2
+        yield 'returns (events, catalog id)', z3.BoolVal(ok)
+        if not ok:
+            return
+        ev, cid = r
+        yield from CsepAscii.ensures(c, ev, fname, return_catalog_id, _n, _h)
+        if cid is None:
+            yield 'the catalog id is None only for a file without records', _n <= _h
+        else:
+            yield 'the catalog id is that of the last record (-1 if it is not a number)', \
+                z3.And(_n > _h, to_z3(cid) == z3.If(INT_OK(_n - 1, 5), INT_VAL(_n - 1, 5), z3.IntVal(-1)))
